@@ -104,15 +104,54 @@ PROPS = {
     },
     "C13": {
         "kani": [],
-        "verus": ["R"],
-        "trusted_base": ["Verus 0.2026.09.13 + Z3 (unit R)"],
+        "verus": ["R", "Q"],
+        "trusted_base": ["Verus 0.2026.09.13 + Z3 (units R and Q)"],
         "assumptions": [
             "slab contracts and lock erasure as for C09",
+            "unit Q: Command::run_task's verdict is taken as given (havoc contract): Completed/Cancelled mean the task can never run again",
+            "unit Q: a Task taken from the spawn queue is a task the command has not held before (moved, never cloned)",
         ],
         "not_decided": [
             "executor task futures and captured values being dropped (drop glue; QueuingExecutor::run_task uses Mutex, Arc, Context)",
-            "Command task slab release (Command::run_until_settled) - unit Q",
+            "that dropping the removed Task drops everything it captured (Rust drop glue)",
             "Core field drop order; the global cleared-timer set (cross-call history, F8)",
+        ],
+    },
+    "C01": {
+        "kani": [],
+        "verus": ["Q"],
+        "trusted_base": ["Verus 0.2026.09.13 + Z3 (unit Q: extracted run_all, process, process_event, resolve, receive, Drain::next, run_until_settled, spawn_new_tasks, is_done, poll_next)"],
+        "assumptions": [
+            "crossbeam-channel unbounded channels used sequentially are FIFO queues: try_recv returns the head iff non-empty and removes it, send appends, is_empty reads (assumed contracts in verus/Q/unit.rs)",
+            "everything that runs user code (QueuingExecutor::run_task, Command::run_task, App::update, Request::resolve's continuation, join-handle wakers) is HAVOC on every queue restricted to appending to the event/effect queues; run_task == Missing changes nothing",
+            "sequential reading: no other thread is polling a task (RunTask::Unavailable does not occur); C08 is not claimed",
+            "CommandSpawner::spawn puts exactly one future on the executor's spawn queue (async forwarding loop not verified)",
+            "Iterator::collect over Drain is the loop `while let Some(x) = next() { push }` (rule X13), verified against the extracted Drain::next",
+            "the core's channels are never disconnected while the Core exists (it owns a sender of each)",
+            "locks are not poisoned; fewer than 2^32 executor tasks are alive (the code panics explicitly otherwise)",
+            "partial correctness only: the loops need not terminate and no decreases clause is claimed",
+        ],
+        "not_decided": [
+            "that a task's effect actually enters the channel: CommandSpawner::spawn's forwarding loop and host() are async over futures adapters",
+            "nested hosting of commands; any schedule of resolutions (the proofs are per call, for any queue contents)",
+            "that tasks made runnable by the input are exactly the ones in the queues (wakers are user-visible objects: havoc)",
+            "termination",
+        ],
+    },
+    "C03": {
+        "kani": [],
+        "verus": ["Q"],
+        "trusted_base": ["Verus 0.2026.09.13 + Z3 (unit Q: extracted process, process_event, resolve, receive, send_event)"],
+        "assumptions": [
+            "FIFO channel contracts and havoc contracts as for C01",
+            "RwLock::write succeeds (not poisoned) and would deadlock/panic if a write guard already exists: modelled as a precondition; drop(guard) releases it (rule X4)",
+            "App::update is user code: it appends its event to the applied log and may append events/effects; it requires the write guard to be held",
+        ],
+        "not_decided": [
+            "'never entered concurrently' is decided only in its sequential reading (guard taken for exactly one update, released before tasks run)",
+            "events emitted by ONE task are applied in the order emitted: rests on the FIFO contract of the single event channel",
+            "the view model read after a call reflects every applied event (Core::view takes a read lock: not extracted)",
+            "CapabilityContext::update_app (Arc<dyn SenderInner>) - only CommandContext::send_event is verified",
         ],
     },
 }
